@@ -5,7 +5,7 @@
 out=$1; demo=$2; rel=$3; pkg=$4; run=$5
 wt=/tmp/cf/$(basename $out)
 rm -rf $wt; git -C /repo worktree add -q --detach $wt HEAD || exit 2
-cp $out/$demo $wt/$rel
+mkdir -p $(dirname $wt/$rel); cp $out/$demo $wt/$rel
 ( cd $wt && git apply --whitespace=nowarn $out/patch.diff ) || { echo "PATCH-DOES-NOT-APPLY"; git -C /repo worktree remove --force $wt; exit 2; }
 ( cd $wt && go build ./... ) || { echo "BUILD-FAILS"; }
 ( cd $wt && timeout 1800 go test -count=1 -timeout 25m -run "$run" $pkg > /tmp/cf/with.log 2>&1 ); rcw=$?
